@@ -421,7 +421,11 @@ def insertion_rules(repo):
     # trim
     role = "the overhang is trimmed from the side named by `left` back to the original length"
     ifs = [n for n in loop.body if isinstance(n, ast.If) and "left" in unparse(n.test)]
-    if len(ifs) != 1:
+    nested = [n for n in ast.walk(il) if isinstance(n, ast.If) and "left" in unparse(n.test)]
+    if nested:
+        out.append(violation("R-SIB", fi, role, "the trim runs inside the loop over insertions: after the first insertion the sequence is cut back, so the "
+                             "remaining insertions are applied at shifted coordinates (left=True)", nested[0]))
+    elif len(ifs) != 1:
         out.append(unrecognised("R-SIB", fi, role, "`if left` trim not found"))
     else:
         n = ifs[0]
